@@ -106,8 +106,8 @@ def sample_contract(con, contracts, n, seed):
     for ln in lens:
         base.add(ln <= 24)
     for sc in scalars:
-        if z3.is_int(sc):
-            base.add(sc >= -10 ** 6 if True else True)
+        if z3.is_int(sc) and not (z3.is_const(sc) and sc.decl().name() in ops.RANGES):
+            base.add(sc >= -10 ** 6, sc <= 10 ** 6)      # unbounded integers: sampled within +-10**6
     seen = set()
     old = signal.signal(signal.SIGALRM, _alarm)
     try:
